@@ -68,7 +68,11 @@ func (c *Counter[T]) Add(v T) {
 		return
 	}
 	c.buf.Add(v)
-	if c.buf.Len() >= c.cap {
+
+	// Evict until the buffer is below its capacity again. A single pass can
+	// leave the buffer full (each element survives with probability 1/2), and
+	// a full buffer would grow past its size on the next insertion.
+	for c.buf.Len() >= c.cap && c.buf.Len() > 0 {
 		// Instead of flipping a coin for each element, grab blocks of 64 random
 		// bits and use them directly, refilling only as needed.
 		var nb, rnd uint64
